@@ -36,6 +36,8 @@ CONSTANTS
   MaxRebootAsks,  \* bound on reboot-wait iterations
   MaxCrashes,     \* bound on process deaths per behaviour
   RestartRuns,    \* what the embedder configures on a restart: records [os, apps]
+  Jumps,          \* wall-clock steps (seconds, either sign) the environment may apply while the machine is blocked
+  MaxJumps,
   FailSets,       \* sets of storage operations [k, n] that fail; one is chosen per behaviour
   Mut             \* "none" or the name of a seeded design regression (model mutants)
 
@@ -162,8 +164,8 @@ Init ==
            nChecks |-> 0, nCtl |-> 0, nAsk |-> 0,
            wait |-> [untilTid |-> 0, forTid |-> 0, untilFired |-> FALSE, forFired |-> FALSE, rbTid |-> 0, rbFired |-> FALSE],
            ctlq |-> <<>>, inWfr |-> FALSE, respOwed |-> <<>>,
-           op |-> [kind |-> "none", n |-> 0, next |-> "none", ctl |-> FALSE],
-           nCrash |-> 0, os |-> "1.0", presets |-> Apps0, startM |-> 0, wfr |-> FALSE]
+           op |-> [kind |-> "none", n |-> 0, next |-> "none", ctl |-> FALSE, jumped |-> FALSE],
+           nCrash |-> 0, nJump |-> 0, os |-> "1.0", presets |-> Apps0, startM |-> 0, wfr |-> FALSE]
   /\ obs = <<>>
   /\ g = GhostInit
   /\ script = <<>>
@@ -247,6 +249,20 @@ FireTimer(which) ==
                          !.wait.untilFired = @ \/ which = "until", !.wait.forFired = @ \/ which = "for",
                          !.wait.rbFired = @ \/ which = "rb"]
 
+\* the wall clock is stepped (NTP, user) while the machine is blocked in an operation or in a select; the
+\* monotonic clock is not affected.  Everything that subtracts wall times must cope with a negative difference.
+ClockJump(dw) ==
+  /\ st.nJump < MaxJumps
+  /\ \/ st.pc = "OP" /\ ~st.op.jumped
+     \/ st.pc \in {"R7", "W3"} /\ Mode = "start" /\ Quiet /\ Budget
+  /\ LET at == IF st.pc = "OP" THEN st.op.kind ELSE "idle"
+         n == IF st.pc = "OP" THEN st.op.n ELSE st.cnt.idle + 1
+         c1 == [st.clk EXCEPT !.w = @ + dw] IN
+     /\ Emit(<<Stamp([k |-> "clock", dw |-> dw, dm |-> 0], c1)>>)
+     /\ script' = script \o Stim(at, n, [s |-> "clock", dw |-> dw, dm |-> 0])
+     /\ st' = [st EXCEPT !.clk = c1, !.nJump = @ + 1, !.op.jumped = (st.pc = "OP"),
+                         !.cnt.idle = IF st.pc = "OP" THEN @ ELSE @ + 1]
+
 \* a control request arrives while the machine is blocked in a select (R7 / W3) or busy
 CtlSendIdle(src) ==
   /\ st.pc \in {"R7", "W3"} /\ st.nCtl < MaxCtl /\ Mode = "start" /\ Quiet /\ Budget
@@ -292,7 +308,7 @@ Crash(run) ==
                          !.ck = CkInit, !.rq = [kind |-> "none", apps |-> <<>>, ret |-> "none", res |-> "none", ans |-> NoAns],
                          !.wait = [untilTid |-> 0, forTid |-> 0, untilFired |-> FALSE, forFired |-> FALSE, rbTid |-> 0, rbFired |-> FALSE],
                          !.ctlq = <<>>, !.inWfr = FALSE, !.respOwed = <<>>, !.nAsk = 0,
-                         !.op = [kind |-> "none", n |-> 0, next |-> "none", ctl |-> FALSE],
+                         !.op = [kind |-> "none", n |-> 0, next |-> "none", ctl |-> FALSE, jumped |-> FALSE],
                          !.cnt.idle = IF st.pc = "OP" THEN @ ELSE @ + 1,
                          !.nCrash = @ + 1, !.os = run.os, !.presets = run.apps, !.startM = st.clk.m,
                          !.wfr = WfrOwed(comm, run.os)]
@@ -302,14 +318,17 @@ R4_ReportWait ==
   /\ st.pc = "R4"
   /\ IF st.wfr
        THEN LET fin == st.store.pend["update_finish_time"]
-                nowNs == 123456789
-                borrow == IF nowNs < fin.ns THEN 1 ELSE 0
-                d == [s |-> (st.clk.w - fin.s) - (st.clk.m - st.startM) - borrow,
-                      ns |-> IF nowNs < fin.ns THEN nowNs + 1000000000 - fin.ns ELSE nowNs - fin.ns]
+                toNow == WallSince(st.clk, fin)
+                d == [toNow EXCEPT !.s = @ - (st.clk.m - st.startM)]
+                \* :524-566 finish time in the future, or less wall time than monotonic time since the start: try again
+                can == WallNotBefore(st.clk, fin) /\ d.s >= 0
                 r == StRun(<<[k |-> "st.rm", key |-> "update_finish_time"], [k |-> "st.rm", key |-> "target_version"]>> \o Commit,
                            st.store, st.clk, <<>>) IN
-            /\ Emit(<<Stamp([k |-> "met", m |-> "waited", d |-> d], st.clk)>> \o r.lines)
-            /\ st' = [st EXCEPT !.pc = "R5", !.wfr = FALSE, !.store = r.store, !.clk = r.clk]
+            IF can
+              THEN /\ Emit(<<Stamp([k |-> "met", m |-> "waited", d |-> d], st.clk)>> \o r.lines)
+                   /\ st' = [st EXCEPT !.pc = "R5", !.wfr = FALSE, !.store = r.store, !.clk = r.clk]
+              ELSE /\ st' = [st EXCEPT !.pc = "R5"]
+                   /\ UNCHANGED <<obs, g>>
        ELSE /\ st' = [st EXCEPT !.pc = "R5"]
             /\ UNCHANGED <<obs, g>>
   /\ UNCHANGED script
@@ -386,7 +405,7 @@ O2_Http(a) ==
          nonce == st.ids.nonce + 1 IN
      /\ Emit(<<HttpLine(kind, n, st.rq.apps, p, rid, sid, nonce, a, st.clk)>>)
      /\ script' = script \o Ans("http." \o kind, n, a)
-     /\ st' = [st EXCEPT !.pc = "OP", !.op = [kind |-> "http." \o kind, n |-> n, next |-> "O4", ctl |-> st.inWfr],
+     /\ st' = [st EXCEPT !.pc = "OP", !.op = [kind |-> "http." \o kind, n |-> n, next |-> "O4", ctl |-> st.inWfr, jumped |-> FALSE],
                          !.cnt[kind] = n, !.ids.rid = rid, !.ids.nonce = nonce,
                          !.ids.sid = IF kind = "ping" THEN @ + 1 ELSE @,
                          !.rq.ans = a, !.rq.res = ExResult(a)]
@@ -489,10 +508,10 @@ P9_Plan(a) ==
      /\ script' = script \o Ans("inst.plan", n, [ok |-> IF a = "ok" THEN Some("plan1") ELSE None])
      /\ IF a = "ok"
           THEN /\ Emit(<<line>>)
-               /\ st' = [st EXCEPT !.pc = "OP", !.op = [kind |-> "inst.plan", n |-> n, next |-> "P10", ctl |-> FALSE],
+               /\ st' = [st EXCEPT !.pc = "OP", !.op = [kind |-> "inst.plan", n |-> n, next |-> "P10", ctl |-> FALSE, jumped |-> FALSE],
                                    !.cnt.plan = n, !.ck.plan = "ok"]
           ELSE /\ Emit(<<line>>)
-               /\ st' = [st EXCEPT !.pc = "OP", !.op = [kind |-> "inst.plan", n |-> n, next |-> "P9e", ctl |-> FALSE],
+               /\ st' = [st EXCEPT !.pc = "OP", !.op = [kind |-> "inst.plan", n |-> n, next |-> "P9e", ctl |-> FALSE, jumped |-> FALSE],
                                    !.cnt.plan = n, !.ck.plan = "err", !.ck.outcome = "plan"]
 P9e_PlanFailed ==
   /\ st.pc = "P9e"
@@ -508,7 +527,7 @@ P10_CanStart(a) ==
          line == Stamp([k |-> "pol.start", n |-> n, plan |-> "plan1", ans |-> a], st.clk) IN
      /\ Emit(<<line>>)
      /\ script' = script \o Ans("pol.start", n, a)
-     /\ st' = [st EXCEPT !.pc = "OP", !.op = [kind |-> "pol.start", n |-> n, next |-> IF a = "ok" THEN "P11" ELSE "P10d", ctl |-> FALSE],
+     /\ st' = [st EXCEPT !.pc = "OP", !.op = [kind |-> "pol.start", n |-> n, next |-> IF a = "ok" THEN "P11" ELSE "P10d", ctl |-> FALSE, jumped |-> FALSE],
                          !.cnt.start = n, !.ck.decision = a,
                          !.ck.outcome = IF a = "ok" THEN @ ELSE a]
 P10d_NotNow ==
@@ -564,34 +583,37 @@ P13_Install(results, prog) ==
      /\ Emit(<<Stamp([k |-> "inst.begin", plan |-> "plan1", obs |-> TRUE], st.clk)>> \o ProgLines(prog, st.clk)
              \o <<Stamp([k |-> "inst.install", n |-> n, plan |-> "plan1", n_offered |-> Len(results), ans |-> a], st.clk)>>)
      /\ script' = script \o Ans("inst.install", n, a)
-     /\ st' = [st EXCEPT !.pc = "OP", !.op = [kind |-> "inst.install", n |-> n, next |-> "P15", ctl |-> FALSE],
+     /\ st' = [st EXCEPT !.pc = "OP", !.op = [kind |-> "inst.install", n |-> n, next |-> "P15", ctl |-> FALSE, jumped |-> FALSE],
                          !.cnt.install = n, !.ck.results = results, !.ck.finish = Tick(st.clk)]
 
 \* :1087-1136 per-app events: offered entries zipped with results, known apps only, merged by id
 KnownIn(apps, id) == \E i \in 1..Len(apps) : apps[i].id = id
 AppOf(apps, id) == apps[CHOOSE i \in 1..Len(apps) : apps[i].id = id]
-ResultEvent(r, prev, next) ==
-  CASE r = "i" -> Ev(14, 1, None, prev, next, TRUE)
-    [] r = "d" -> Ev(3, 9, None, prev, next, TRUE)
-    [] OTHER -> Ev(3, 0, Some(2), prev, next, TRUE)
-RECURSIVE AddEvents(_, _, _, _, _)
-AddEvents(acc, off, results, apps, i) ==
+\* dl: the event carries the install duration, which exists only if the wall clock did not go back (:1075, :1117)
+ResultEvent(r, prev, next, dl) ==
+  CASE r = "i" -> Ev(14, 1, None, prev, next, dl)
+    [] r = "d" -> Ev(3, 9, None, prev, next, dl)
+    [] OTHER -> Ev(3, 0, Some(2), prev, next, dl)
+RECURSIVE AddEvents(_, _, _, _, _, _)
+AddEvents(acc, off, results, apps, i, dl) ==
   IF i > Len(off) \/ i > Len(results) \/ (Mut = "M47" /\ i > 1) THEN acc
-  ELSE IF ~KnownIn(apps, off[i].id) THEN AddEvents(acc, off, results, apps, i + 1)
+  ELSE IF ~KnownIn(apps, off[i].id) THEN AddEvents(acc, off, results, apps, i + 1, dl)
   ELSE LET a == AppOf(apps, off[i].id)
-           ev == ResultEvent(results[i], a.ver, off[i].uc[1].ver)
+           ev == ResultEvent(results[i], a.ver, off[i].uc[1].ver, dl)
            S == {j \in 1..Len(acc) : acc[j].id = a.id} IN
-       IF S = {} THEN AddEvents(Append(acc, EvApp(a, <<ev>>)), off, results, apps, i + 1)
+       IF S = {} THEN AddEvents(Append(acc, EvApp(a, <<ev>>)), off, results, apps, i + 1, dl)
        ELSE LET j == CHOOSE j \in S : TRUE IN
-            AddEvents([acc EXCEPT ![j].ev = Append(@, ev)], off, results, apps, i + 1)
+            AddEvents([acc EXCEPT ![j].ev = Append(@, ev)], off, results, apps, i + 1, dl)
 NEvents(payload) == LET RECURSIVE Sum(_)
                         Sum(s) == IF s = <<>> THEN 0 ELSE Len(Head(s).ev) + Sum(Tail(s))
                     IN Sum(payload)
 P15_AppEvents ==
   /\ st.pc = "P15"
-  /\ Emit(<<Stamp([k |-> "met", m |-> IF \E i \in 1..Len(st.ck.results) : st.ck.results[i] = "f" THEN "fail_duration" ELSE "ok_duration",
-                   d |-> Secs(st.ck.finish.w - st.ck.startW)], st.clk)>>)
-  /\ st' = StartReport(AddEvents(<<>>, Offered(st.ck.doc), st.ck.results, st.ck.apps, 1), "P16")
+  /\ Emit(IF st.clk.w >= st.ck.startW   \* :1074-1075 finish time read once the installer is done; start time in the future: no metric
+            THEN <<Stamp([k |-> "met", m |-> IF \E i \in 1..Len(st.ck.results) : st.ck.results[i] = "f" THEN "fail_duration" ELSE "ok_duration",
+                          d |-> Secs(st.clk.w - st.ck.startW)], st.clk)>>
+            ELSE <<>>)
+  /\ st' = [StartReport(AddEvents(<<>>, Offered(st.ck.doc), st.ck.results, st.ck.apps, 1, st.clk.w >= st.ck.startW), "P16") EXCEPT !.ck.finish = st.clk]
   /\ UNCHANGED script
 
 \* :1141-1152 update-complete for the apps that installed
@@ -611,7 +633,7 @@ P16_Complete ==
      /\ Emit(lost)
      /\ st' = IF inst # <<>>
                 THEN StartReport(DedupApps(<<>>, [i \in 1..Len(inst) |->
-                        EvApp(inst[i], <<Ev(3, 1, None, inst[i].ver, NextVer(st.ck.doc, inst[i].id), TRUE)>>)]), "P17")
+                        EvApp(inst[i], <<Ev(3, 1, None, inst[i].ver, NextVer(st.ck.doc, inst[i].id), st.ck.finish.w >= st.ck.startW)>>)]), "P17")
                 ELSE [st EXCEPT !.pc = "P18", !.rq.res = "ok"]
   /\ UNCHANGED script
 P17 ==
@@ -640,9 +662,11 @@ P18_Errors ==
                 fs == st.ck.firstSeen
                 finNs == 123456789
                 borrow == IF finNs < fs.ns THEN 1 ELSE 0
-                seen == <<Stamp([k |-> "met", m |-> "first_seen",
-                                 d |-> [s |-> st.ck.finish.w - fs.s - borrow,
-                                        ns |-> IF finNs < fs.ns THEN finNs + 1000000000 - fs.ns ELSE finNs - fs.ns]], st.clk)>> IN
+                seen == IF st.ck.finish.w > fs.s \/ (st.ck.finish.w = fs.s /\ finNs >= fs.ns)   \* :1197
+                          THEN <<Stamp([k |-> "met", m |-> "first_seen",
+                                        d |-> [s |-> st.ck.finish.w - fs.s - borrow,
+                                               ns |-> IF finNs < fs.ns THEN finNs + 1000000000 - fs.ns ELSE finNs - fs.ns]], st.clk)>>
+                          ELSE <<>> IN
             /\ Emit(seen \o r.lines)
             /\ st' = [st EXCEPT !.pc = "P20", !.store = r.store, !.clk = r.clk, !.ck.outcome = "installed"]
   /\ UNCHANGED script
@@ -651,7 +675,7 @@ P20_Needed(a) ==
   /\ LET n == st.cnt.needed + 1 IN
      /\ Emit(<<Stamp([k |-> "pol.rbneeded", n |-> n, plan |-> "plan1", ans |-> a], st.clk)>>)
      /\ script' = script \o Ans("pol.rbneeded", n, a)
-     /\ st' = [st EXCEPT !.pc = "OP", !.op = [kind |-> "pol.rbneeded", n |-> n, next |-> "S3", ctl |-> FALSE],
+     /\ st' = [st EXCEPT !.pc = "OP", !.op = [kind |-> "pol.rbneeded", n |-> n, next |-> "S3", ctl |-> FALSE, jumped |-> FALSE],
                          !.cnt.needed = n, !.ck.needed = a]
 
 (***************************************************************************)
@@ -843,6 +867,7 @@ Next ==
   \/ B0_Start
   \/ R4_ReportWait
   \/ \E run \in RestartRuns : Crash(run)
+  \/ \E dw \in Jumps : ClockJump(dw)
   \/ R5
   \/ \E w \in {"until", "for", "rb"} : FireTimer(w)
   \/ \E s \in CtlSources : CtlSendIdle(s)
